@@ -774,6 +774,11 @@ pub fn gen_chunking(rng: &mut Rng) -> Chunking {
 }
 
 pub fn gen_interrupts(rng: &mut Rng) -> Interrupts {
+    if !cfg!(miri) && rng.chance(1, 60) {
+        // a storm of consecutive interrupted reads before one of the first calls
+        let n = *rng.pick(&[4usize, 17, 100, 255, 256, 1000, 1023, 1024, 1025, 4096, 5000, 65_535, 65_536, 70_000]);
+        return Interrupts::Storm(n, rng.below(6));
+    }
     match rng.below(8) {
         0 => Interrupts::BeforeEvery,
         1 => Interrupts::Seeded(rng.next(), rng.range(1, 8)),
